@@ -64,11 +64,12 @@ Inductive value :=
 | VStr (s : bytes)       (* valid UTF-8; the str is represented by its encoding *)
 | VHex (s : bytes).
 
-(* exceptions escaping _async_notification after the state number was advanced *)
+(* why an accepted notification's value was not delivered (the state number is advanced
+   all the same; since fix 242be4e nothing is raised into the scanner callback) *)
 Inductive crashkind :=
-| CkStruct      (* struct.error: value shorter than the format needs *)
-| CkUnicode     (* UnicodeDecodeError *)
-| CkNoChar.     (* AttributeError: iid not in the accessory database, char is None *)
+| CkStruct      (* from_bytes raised struct.error: value shorter than the format needs *)
+| CkUnicode     (* from_bytes raised UnicodeDecodeError *)
+| CkNoChar.     (* no accessory 1 / iid not in the database: char is None -> poll fallback *)
 
 Definition in_rng (lo hi b : N) : bool := N.leb lo b && N.leb b hi.
 Definition cont (b : N) : bool := in_rng 128 191 b.
@@ -125,14 +126,20 @@ Record pairing := mkP {
   p_key : option key;            (* _broadcast_decryption_key *)
   p_sn : option N;               (* description (None: no advertisement/cache yet) and its state_num *)
   p_psn : option N;              (* _accessories_state.state_num: the persisted copy (restored after a restart) *)
-  p_chars : list (N * fmt)       (* accessories.aid(1): (iid, format) in database order *)
+  p_chars : list (N * fmt);      (* accessories.aid(1): (iid, format) in database order; [] also stands for
+                                    a database without accessory 1 *)
+  p_sig : bool                   (* the database has the protocol-information service with a service-signature
+                                    characteristic (needed to (re)generate the broadcast key) *)
 }.
 
 Definition with_sn (p : pairing) (n : N) : pairing :=
-  mkP (p_id p) (p_key p) (Some n) (p_psn p) (p_chars p).
+  mkP (p_id p) (p_key p) (Some n) (p_psn p) (p_chars p) (p_sig p).
 
 Definition with_psn (p : pairing) (x : option N) : pairing :=
-  mkP (p_id p) (p_key p) (p_sn p) x (p_chars p).
+  mkP (p_id p) (p_key p) (p_sn p) x (p_chars p) (p_sig p).
+
+Definition with_key (p : pairing) (k : key) : pairing :=
+  mkP (p_id p) (Some k) (p_sn p) (p_psn p) (p_chars p) (p_sig p).
 
 Fixpoint find_char (iid : N) (cs : list (N * fmt)) : option fmt :=
   match cs with
@@ -153,7 +160,14 @@ Inductive outcome :=
 | OStale           (* opened at the stored state number *)
 | OMismatch        (* inner GSN differs from the nonce counter *)
 | OAccepted        (* state number advanced, listeners called *)
-| OCrash (k : crashkind).  (* state number advanced, then an exception escaped *)
+| OUndelivered (k : crashkind).  (* state number advanced, nothing delivered, nothing raised *)
+
+(* does the step end in self._process_disconnected_events() (poll the accessory)? *)
+Definition falls_back (o : outcome) : bool :=
+  match o with
+  | ONoKey | ONoDecrypt | OUndelivered CkNoChar => true
+  | _ => false
+  end.
 
 (* the candidate tuple  (s+1, s, *range(s+2, s+100)) ; w = 98 in the implementation *)
 Definition cands_w (w : nat) (s : N) : list N :=
@@ -178,9 +192,9 @@ Definition value_of (pt : bytes) : bytes := firstn 8 (skipn 4 pt).
 (* what the listeners receive for an accepted plaintext *)
 Definition deliver (p : pairing) (pt : bytes) : outcome * list call :=
   match find_char (iid_of pt) (p_chars p) with
-  | None => (OCrash CkNoChar, [])
+  | None => (OUndelivered CkNoChar, [])
   | Some f => match from_bytes f (value_of pt) with
-              | inl ck => (OCrash ck, [])
+              | inl ck => (OUndelivered ck, [])
               | inr v => (OAccepted, [(p_id p, 1, iid_of pt, v)])
               end
   end.
@@ -286,7 +300,9 @@ Definition calls_for (i : bytes) (cl : list call) : list call :=
                      an unchanged config number: description replaced, both copies := n
      ORestart        process restart: every pairing is rebuilt from the cache;
                      description := from_cache(persisted) when the persisted number is
-                     truthy, else None
+                     truthy, else None (the broadcast key is restored from the cache, where
+                     OSetKey saved it)
+     OSetKey i k     key (re)generation, e.g. at the 16-bit roll-over of the state number
    OPopulate/OUpdate need a description (the code dereferences it); without one the
    model leaves the pairing alone (not generated by the harness). *)
 Inductive op :=
@@ -294,7 +310,8 @@ Inductive op :=
 | OPopulate (i : bytes) (n : N)
 | OUpdate (i : bytes) (n : N)
 | OPlain (i : bytes) (n : N)
-| ORestart.
+| ORestart
+| OSetKey (i : bytes) (k : key).
 
 Fixpoint upd_pairing (g : pairing -> pairing) (c : ctrl) (i : bytes) : ctrl :=
   match c with
@@ -310,7 +327,13 @@ Definition plain_p (n : N) (p : pairing) : pairing := with_psn (with_sn p n) (So
 Definition restart_p (p : pairing) : pairing :=
   mkP (p_id p) (p_key p)
       (match p_psn p with Some n => if N.eqb n 0 then None else Some n | None => None end)
-      (p_psn p) (p_chars p).
+      (p_psn p) (p_chars p) (p_sig p).
+(* BlePairing._async_set_broadcast_encryption_key inside an authenticated session: asks the
+   accessory to generate a new broadcast key, derives it (HKDF of the session secret, salt =
+   controller LTPK, info "Broadcast-Encryption-Key" - the symbolic key k names the result),
+   installs it and saves it in the cache (so a restart restores it).  Without a
+   service-signature characteristic the method returns early and nothing changes. *)
+Definition setkey_p (k : key) (p : pairing) : pairing := if p_sig p then with_key p k else p.
 
 Definition apply_w (w : nat) (c : ctrl) (o : op) : ctrl * outcome * list call :=
   match o with
@@ -319,6 +342,7 @@ Definition apply_w (w : nat) (c : ctrl) (o : op) : ctrl * outcome * list call :=
   | OUpdate i n => (upd_pairing (update_p n) c i, OOtherType, [])
   | OPlain i n => (upd_pairing (plain_p n) c i, OOtherType, [])
   | ORestart => (map restart_p c, OOtherType, [])
+  | OSetKey i k => (upd_pairing (setkey_p k) c i, OOtherType, [])
   end.
 Definition apply := apply_w 98.
 
